@@ -13,6 +13,7 @@ pub mod c10;
 pub mod c11;
 pub mod c12;
 pub mod c13;
+pub mod c14;
 pub mod c20;
 pub mod pairs;
 pub mod util;
@@ -34,6 +35,7 @@ pub fn run(ctx: &Ctx) -> PropResult {
         "C11" => c11::run(ctx),
         "C12" => c12::run(ctx),
         "C13" => c13::run(ctx),
+        "C14" => c14::run(ctx),
         "C20" => c20::run(ctx),
         other => Err(format!("no monitor for {}", other)),
     }
